@@ -31,7 +31,7 @@ def pair(rng, cid, c, cb=None):
 
 def gen(rng, tier):
     lines, meta = [], {}
-    n = 4 if tier == "quick" else 60
+    n = 4 if tier == "quick" else 400
     k = 0
     for c in range(256):
         for _ in range(n):
